@@ -34,8 +34,19 @@ CFG = dict(
              "ReadsAll (every Process() pulls all its wired inputs) guards ONLY the clause 'a node is Processed right after it executed' and "
              "what follows from it: reads_idempotent, executed_then_processed, reexecution_needs_change (the proved part of "
              "C11_no_spurious_full; false without the guard, see above). Freshness (read_fresh, processed_is_fresh), the frame, "
-             "exec_only_if_outdated, exec_only_if_changed and the version accounting are proved for EVERY processor: `fn` receives `none` for "
-             "an input it did not pull and the from-scratch evaluation Spec skips exactly the same inputs (specPull)",
+             "exec_only_if_outdated, exec_only_if_changed and the version accounting are proved for every processor in the following class: "
+             "Process() is a deterministic pull STRATEGY (SNode.next: from the wiring and the entries pulled so far it names the next "
+             "dependency to pull, or stops) plus a value function `fn` of the wiring and the entries (none = not pulled) — any pull order "
+             "(a later dependency first, as modeling/extrude/screw.go), early return on a nil port, decisions on values read so far, "
+             "re-wiring of the processor's own ports; at most len(deps) pulls per execution; the from-scratch evaluation Spec follows the "
+             "same strategy (specPullS). Outside the class: processors depending on anything else (time, randomness, global state, their "
+             "own previous output)",
+             "out of the quantifier (not reachable through SetInput / Set / ApplyMessage): parameter.Value.FromJSON (value.go:176) changes the "
+             "value without a version bump (ApplyAppSchema calls it on fresh nodes only); InitializeForCLI (value.go:236) makes Value() change "
+             "at flag.Parse without a bump; refutil.FieldValuesOfTypeInArray `break`s (not `continue`s) on a nil array element "
+             "(refutil/reflect.go:385-388), making `if e == nil {continue}` at struct_node.go:234 dead code — model arrays have no nils, and a "
+             "nil array element is not reachable through the public editing API (SetInput with a nil output takes the REMOVE branch; "
+             "AddToStructFieldArray only appends non-nil outputs); only a hand-written Data literal can contain one",
              "guard, not theorem: the graph is acyclic after every call (Valid: it admits SOME ranking, which may change from call "
              "to call, bounded by the fuel F; ids are just names). The Go API has no cycle check and Outdated() recurses forever on a cycle",
              "processors pull their inputs in Dependencies() order (model `pull`/`pullM`); the order does not matter for the values but is fixed in the model",
@@ -58,8 +69,8 @@ CFG = dict(
     manifest=dict(
         text="Lean 4 theorems by induction over ARBITRARY histories of parameter sets, re-wirings (scalar and array ports) and reads on any "
              "graph that stays acyclic (the ranking may change over the history), for every value type and EVERY processor function, "
-             "including processors that skip wired inputs (SNode.reads; fn gets `none` for an unread input; the from-scratch evaluation skips "
-             "the same inputs): reachable_inv (ghost-free invariant), read_fresh / processed_is_fresh (the value Value() returns is the "
+             "modelled as a deterministic pull STRATEGY over its wired inputs (SNode.next: any pull order, early return on nil ports, decisions on "
+             "values read so far, skipping; fn gets `none` for an unread input; the from-scratch evaluation follows the same strategy): reachable_inv (ghost-free invariant), read_fresh / processed_is_fresh (the value Value() returns is the "
              "from-scratch evaluation of the current graph; every node reporting Processed holds it), eval_frame, exec_only_if_outdated, "
              "exec_only_if_changed (a Processed node is not executed until a parameter in its cone is Set or a node of its cone is re-wired), "
              "version_counts_executions (+1 per execution and never otherwise), remembered_length (the positional version compare cannot go out "
@@ -69,7 +80,8 @@ CFG = dict(
              "these are FALSE: skipping_processor_spurious / no_spurious_full_false (idle reads re-execute a processor that skipped a stale "
              "struct input and bump its version; values stay correct) — known finding C11-skipping-processor, exhibited on the real "
              "nodes.Struct on every run by fixed witness histories. Tie: the real nodes.Struct / ValueNode / parameter.Value over 15 "
-             "all-reading processor types plus one skipping type on chains, diamonds, ladders, shared subgraphs, random DAGs and order-changing "
+             "all-reading processor types plus three skipping types (value-dependent skip, screw.go-like later-dependency-first, nil-port early "
+             "return; their own ports re-wired, skipper over skipper) on chains, diamonds, ladders, shared subgraphs, random DAGs and order-changing "
              "re-wirings, with processors whose Process() returns an error depending on its inputs, and with composite-typed parameter.Value "
              "parameters receiving accepted, partial and rejected messages; after EVERY operation of random histories the cache, version and state of every node and the executed processors are "
              "compared exactly with the model; fresh / no_spurious / version / dependency-order predicates on the implementation.",
